@@ -192,7 +192,7 @@ def correspondence(ctx):
     out = new_outcome(
         "per (writer, target, dest present/absent): real audit-hook trace == model program; for EVERY kill point k the model's "
         "crashState == observed directory (dest content, temp dir present); for EVERY call k raising OSError the model's fault trace "
-        "and faultState == observed (variant of the handler table detected from the traces); non-trivial = distinct "
+        "and faultState == observed; the variant is detected from the traces and must be THE model Job.cfg (replace, guarded, with-block); non-trivial = distinct "
         "(writer, target, present, mode, k) with at least one data chunk"
     )
     variants = {}
@@ -269,13 +269,21 @@ def correspondence(ctx):
                 out["nontrivial"].add((w, t, present, "fault", k))
         for k, exp, got in bad[:3]:
             add_failure(out, "corr", "fault trace/state differs from every handler variant of the model (closest shown)", dict(inp, mode="fault", k=k, variant=[commit, guarded, wb, bu, cb]), exp, got, confirmed=False)
+        if (commit, guarded, wb, bu) != ("replace", True, True, False):
+            add_failure(
+                out, "corr",
+                "the real traces are not those of THE model (Job.cfg: commit=replace, guarded handlers, with-block, no writer-level unlink) "
+                f"but of the historical variant commit={commit},guarded={guarded},with_block={wb},body_unlink={bu} "
+                "(see the historical_* theorems of Props/C19.lean for what that loses)",
+                dict(inp, variant=[commit, guarded, wb, bu, cb]), ["replace", True, True, False], [commit, guarded, wb, bu], confirmed=False,
+            )
         if len(out["samples"]) < 6 and present:
             out["samples"].append(dict(inp, trace=tr, commit=commit, guarded=guarded, with_block=wb, body_unlink=bu, close_in_body=cb))
     ctx.notes.append(
         "model variant followed by the code (detected from the real traces): "
         + "; ".join(f"commit={c},guarded={g},with_block={b},body_unlink={bu},close_in_body={cb}: {len(v)} configs" for (c, g, b, bu, cb), v in sorted(variants.items()))
-        + " — atomic_all_prefixes / fault_leaves_old_and_no_temp (full) speak about commit=replace,guarded=True,body_unlink=False; "
-        "for commit=unlink_rename / guarded=False the _partial theorems and the _counter witnesses apply"
+        + " — THE model (Job.cfg, the subject of atomic_all_prefixes / fault_leaves_old_and_no_temp) is commit=replace,guarded=True,"
+        "with_block=True,body_unlink=False; any other variant is reported as a correspondence failure"
     )
     _resume_corr(ctx, out)
     return out
@@ -309,6 +317,13 @@ def _judge(cfg, data, mode, k, real, out, collect=True):
         s = symptom()
         if s:
             res.append((f"kill:{tclass}:before-{call}:{s}", f"process killed just before call {k} ({call}): destination is neither the old nor the new content", [old, new], after))
+    elif mode == "fault" and real.get("exc") is None and new is not None:
+        # the injected error was swallowed below cogent3 (e.g. zipfile retries open('r+b') as 'w+b') and the
+        # write went on: it must then be a complete write
+        if after != new:
+            res.append((f"fault:{tclass}:{call}:dest-other", f"OSError raised by call {k} ({call}) was swallowed, the write reported success but the destination is not the new content", new, after))
+        if left:
+            res.append((f"fault:{tclass}:{call}:temp-left", f"OSError raised by call {k} ({call}) was swallowed, the write reported success but temporary files stay behind", [], left))
     elif mode == "fault":
         s = symptom()
         wsfx = f":{w}" if call == "write" else ""
@@ -369,11 +384,11 @@ def _spec_writes(ctx, out):
 # --------------------------------------------------------------------------
 # resume: apply_to interrupted and re-run
 # --------------------------------------------------------------------------
-def _resume_inputs(ctx, tag, rng):
+def _resume_inputs(ctx, tag, rng, with_failure=True):
     d = ctx.scratch / f"resume_in_{tag}"
     d.mkdir(exist_ok=True)
-    n = rng.randint(4, 6)
-    short = rng.randrange(n)
+    n = rng.randint(4, 6) if with_failure else rng.randint(2, 4)
+    short = rng.randrange(n) if with_failure else -1
     paths = []
     for i in range(n):
         p = d / f"r{i:02d}.fasta"
@@ -402,7 +417,8 @@ def _run_resume(ctx, tag, inputs, kills):
 
 
 def _store_view(st):
-    return dict(completed=st["completed"], not_completed=st["not_completed"], md5=st["md5"], other=st["other"])
+    return dict(completed=st["completed"], not_completed=st["not_completed"], md5=st["md5"], other=st["other"], logs=st.get("logs"),
+                describe=st.get("describe"), validate=st.get("validate"), summary_logs_rows=st.get("summary_logs_rows"))
 
 
 def _resume_cases(ctx, budget):
@@ -412,8 +428,9 @@ def _resume_cases(ctx, budget):
         return cache[key]
     rng = ctx.subrng(f"resume{budget}")
     cases = []
-    for rep in range(1 if budget <= 1 else 2):
-        inputs, short = _resume_inputs(ctx, f"{budget}_{rep}", rng)
+    for rep in range(2 if budget <= 1 else 4):
+        # every other replicate has no failing input: then a re-run after "all members written" has nothing left to process
+        inputs, short = _resume_inputs(ctx, f"{budget}_{rep}", rng, with_failure=(rep % 2 == 0))
         order = list(inputs)
         rng.shuffle(order)
         ref, ref_logs = _run_resume(ctx, f"ref_{budget}_{rep}", order, [])
@@ -449,6 +466,13 @@ def _judge_resume(case):
     elif res["md5"] != ref["md5"]:
         miss = sorted(set(ref["md5"]) - set(res["md5"]))
         fails.append((f"resume:{b}:md5-{'missing' if miss else 'differs'}", "after interrupt + re-run the store's md5 records differ from an uninterrupted run (record complete, checksum never written)", sorted(ref["md5"]), sorted(res["md5"])))
+    if res["logs"] != ref["logs"] or res["summary_logs_rows"] != ref["summary_logs_rows"]:
+        fails.append((f"resume:{b}:log-{'missing' if len(res['logs'] or []) < len(ref['logs'] or []) else 'differs'}",
+                      "after interrupt + re-run the store's logs differ from an uninterrupted run (the re-run did not store its log / stored extra ones)",
+                      dict(logs=ref["logs"], summary_logs_rows=ref["summary_logs_rows"]), dict(logs=res["logs"], summary_logs_rows=res["summary_logs_rows"])))
+    elif not fails and (res["describe"] != ref["describe"] or res["validate"] != ref["validate"]):
+        fails.append((f"resume:{b}:describe-differs", "after interrupt + re-run describe / validate() of the store differ from an uninterrupted run",
+                      dict(describe=ref["describe"], validate=ref["validate"]), dict(describe=res["describe"], validate=res["validate"])))
     if res["other"]:
         fails.append((f"resume:{b}:stray-files", "stray files in the store after interrupt + re-run", [], res["other"]))
     return fails
@@ -521,6 +545,7 @@ def spec_check(ctx, budget):
         "old before the commit point, no temp files after a handled failure; apply_to killed after every j results / before every file "
         "creation then re-run: store (members, contents, md5, not-completed records) equals an uninterrupted run; non-trivial = injected runs"
     )
+    _regression_witnesses(ctx, out)
     _spec_writes(ctx, out)
     _spec_resume(ctx, out, budget)
     return out
@@ -529,6 +554,28 @@ def spec_check(ctx, budget):
 # --------------------------------------------------------------------------
 # findings
 # --------------------------------------------------------------------------
+def _regression_witnesses(ctx, out):
+    """the witnesses of the FIXED findings are permanent regression tests: each is replayed on the real code first, so that a
+    regression is reported as a VIOLATION whose replay is exactly the old witness"""
+    import json as _json
+
+    from .common import VERIF as _V
+
+    fp = _V / "known_findings.d" / f"{PROP}.json"
+    if not fp.exists():
+        return
+    for k in _json.loads(fp.read_text()).get("findings", []):
+        if k.get("status") != "fixed" or "witness" not in k:
+            continue
+        out["evaluations"] += 1
+        bump(out, "regression_witness", k["id"])
+        f = check_witness(ctx, k["witness"])
+        if f:
+            f = dict(f, what=f"REGRESSION of fixed finding {k['id']} ({k.get('commit')}): " + f["what"])
+            f["input"] = dict(f.get("input") or {}, regression_of=k["id"])
+            out["failures"].append(f)
+
+
 def match_finding(f, k):
     sig = f.get("sig") or ""
     if sig not in k.get("sigs", []) and not any(sig.startswith(p) for p in k.get("sig_prefixes", [])):
